@@ -118,9 +118,9 @@ def collection_case(g: Gen, sc: str, degen_rate=0.25):
         else:
             sub = shape
             # occasionally a collection with fewer axes that broadcasts from the right
-            if len(shape) == 2 and r.random() < 0.3:
+            if len(shape) >= 2 and r.random() < 0.3:
                 sub = shape[1:]
-                objs = [per[i][1][k] for i in range(sub[0])]
+                objs = [per[i][1][k] for i in range(int(np.prod(sub)))]
             else:
                 objs = [per[i][1][k] for i in range(npos)]
             args.append(stack(objs, sub))
